@@ -41,8 +41,11 @@ HATED = ('polka', 'noise')
 FAVS = ('lobby', 'den')
 BURST_LEN = 9
 CLIENT_BURST_MAX = 18            # the reset strikes at the k-th frame the client writes after its Login frame, k = 1..18
-PENDING_KINDS = ('download-hang', 'download-slow', 'search', 'parent-hang', 'parent-slow', 'connect-back-hang',
-                 'tracking-retry')
+PENDING_KINDS = ('download-hang', 'download-slow', 'search', 'parent-hang', 'parent-slow', 'parent-slow-in-stop',
+                 'app-connect-slow', 'app-connect-in-stop', 'connect-back-hang', 'tracking-retry')
+SLOW_CLOSE = 1.0                 # '-in-stop' kinds: an application listener takes this long to handle the CLOSING of the
+#                                  server connection, i.e. the disconnect phase of stop() lasts that long
+APP_PEER = 'erin'                # peer of the application-level create_peer_connection() call
 # name -> (clear port configured, obfuscated port configured, ports whose bind fails, error mode)
 PORT_CFGS = {
     'both': (True, True, (), 'clear'),
@@ -70,7 +73,10 @@ RULE = (
     "exhaustive), a reset that strikes at the k-th frame the client itself writes after its Login frame, i.e. inside the "
     "dispatch of SessionInitializedEvent (k = 1..18 exhaustive; the following write fails with a write error), idle, idle "
     "with the server unreachable for the next 12 s (reconnect attempts fail), or with pending work (download whose peer connect hangs / is slow, search with timeout, "
-    "potential-parent connect hanging / slow, connect-back hanging, tracking retry scheduled); or stop() before login, "
+    "potential-parent connect hanging / slow (1.3-5 s: completes after a stop() issued 1 s after it began) / completing "
+    "inside a disconnect phase of stop() that lasts 1 s because an application listener handles the CLOSING of the server "
+    "connection slowly, an application task awaiting client.network.create_peer_connection() with the same two slow "
+    "variants, connect-back hanging, tracking retry scheduled); or stop() before login, "
     "while login() blocks, after a failed login, after frame k of a burst sent at 50 ms spacing (k = 0..9 exhaustive), "
     "right after login() returned, idle, with each kind of pending work, while the reconnect wait runs, after a requested "
     "disconnect / server EOF, after an automatic re-login. The systematic part (every point x reason, both reconnect "
@@ -103,6 +109,11 @@ ASSUMPTIONS = [
     "Tasks that have been cancelled but are not awaited by stop() are accepted if they end within that instant (the count "
     "at the very return is recorded as an observation only). A stop() that does not return within 300 virtual seconds makes "
     "the case inconclusive (the statement starts 'after stop() returns').",
+    "SimNet ground truth (open endpoints owned by the client) is read right after stop() returned, 8 s later (every connect "
+    "pending at stop() has completed by then) and at the end of the window; connections established after stop() are read "
+    "from SimNet's connection list whether or not they are still open. A connect begun before stop() whose TCP handshake "
+    "completes later and which the client closes within the same instant without writing a byte is accepted. The two "
+    "attempts of the application's own race-mode create_peer_connection() call are the application's tasks.",
     "After stop(): connect attempts are read from SimNet's connect log, frames from the write log of the client's server "
     "connections (written after stop() returned), for one virtual hour (700 s when the case already spent an hour waiting "
     "for a reconnect that must not happen).",
@@ -184,6 +195,7 @@ def gen_cfg(rng: random.Random) -> dict:
         'auto': rng.random() < 0.5,
         'shared': rng.choice((0, 1, 1, 2)),
         'files': rng.randint(1, 4),
+        'lat': round(rng.random(), 3),      # position of a slow connect's latency within its range
     }
 
 
@@ -426,7 +438,10 @@ def task_kind(task: asyncio.Task) -> str:
 
 def library_tasks() -> list:
     cur = asyncio.current_task()
-    return [t for t in asyncio.all_tasks() if t is not cur and not t.done() and is_library_task(t)]
+    # (the two attempts of a race-mode connect belong to the call that started them: those of the APPLICATION's own
+    # create_peer_connection() call, which nobody cancels, are the application's)
+    return [t for t in asyncio.all_tasks() if t is not cur and not t.done() and is_library_task(t)
+            and f'-connect-{APP_PEER}-' not in t.get_name()]
 
 
 def describe(task: asyncio.Task) -> dict:
@@ -541,7 +556,7 @@ def run_case(params: dict) -> dict:
         dn = client.distributed_network
         tm = client.users._tracking_manager
         h.record(ConnectionStateChangedEvent, SessionInitializedEvent, SessionDestroyedEvent)
-        st: dict = {'closed_waiters': [], 'closed': [], 'spent_hour': False, 'hang': set(), 'slow': set(),
+        st: dict = {'closed_waiters': [], 'closed': [], 'spent_hour': False, 'hang': set(), 'slow': {},
                     'exclude_users': set(), 'first_session_cut': None, 'stop_done': False}
         keep: list = []
 
@@ -555,11 +570,18 @@ def run_case(params: dict) -> dict:
         keep.append(closed_last)
         client.events.register(ConnectionStateChangedEvent, closed_last, priority=10 ** 6)
 
+        async def slow_application_listener(ev):
+            # an application that takes its time to handle the closing of the server connection ('-in-stop' kinds)
+            if st.get('slow_close') and isinstance(ev.connection, ServerConnection) and ev.state == ConnectionState.CLOSING:
+                await asyncio.sleep(st['slow_close'])
+        keep.append(slow_application_listener)
+        client.events.register(ConnectionStateChangedEvent, slow_application_listener, priority=10 ** 6 - 1)
+
         def planner(node, host, prt, attempt):
             if node == ME and prt in st['hang']:
                 return ConnPlan(connect='hang')
             if node == ME and prt in st['slow']:
-                return ConnPlan(latency=4.0)
+                return ConnPlan(latency=st['slow'][prt])
             return ConnPlan(latency=w.net.rng.uniform(0.001, 0.03))
         w.net.planner = planner
 
@@ -718,12 +740,29 @@ def run_case(params: dict) -> dict:
                 return None
             return st['closed'][-1]
 
+        def slow_or_hang(which: str, peer):
+            """Connects of the client to this peer hang, or take 1.3 .. 5 s (complete after a stop() issued 1 s after the
+            attempt began), or 1.1 .. 1.9 s with a disconnect phase of stop() that lasts 1 s (complete inside it)."""
+            ports = {peer.port, peer.obf_port}
+            if which.endswith('hang'):
+                st['hang'] |= ports
+                return
+            frac = float(cfg.get('lat', 0.5))
+            if which.endswith('in-stop'):
+                lat = 1.1 + 0.8 * frac
+                st['slow_close'] = SLOW_CLOSE
+            else:
+                lat = 1.3 + 3.7 * frac
+            for prt in ports:
+                st['slow'][prt] = lat
+            note('slow-connect', peer=peer.name, latency=round(lat, 3), disconnect_phase_lasts=st.get('slow_close', 0))
+
         async def start_work(which: str):
             add_peer = w.add_peer
             if which.startswith('download'):
                 bob = await add_peer('bob')
                 bob.on_connect_to_peer = lambda msg: None
-                st['hang' if which.endswith('hang') else 'slow'] |= {bob.port, bob.obf_port}
+                slow_or_hang(which, bob)
                 st['exclude_users'].add('bob')
                 await h.call(client.transfers.download('bob', 'music\\album\\song.mp3'))
             elif which == 'search':
@@ -731,8 +770,14 @@ def run_case(params: dict) -> dict:
             elif which.startswith('parent'):
                 carol = await add_peer('carol')
                 carol.on_connect_to_peer = lambda msg: None
-                st['hang' if which.endswith('hang') else 'slow'] |= {carol.port, carol.obf_port}
+                slow_or_hang(which, carol)
                 server.push(ME, M.PotentialParents.Response([PotentialParent('carol', carol.ip, carol.port)]))
+            elif which.startswith('app-connect'):
+                # an application task that asks for a peer connection and is still awaiting it; nobody cancels it
+                erin = await add_peer(APP_PEER)
+                erin.on_connect_to_peer = lambda msg: None
+                slow_or_hang(which, erin)
+                st['app_task'] = w.spawn(ME, client.network.create_peer_connection(APP_PEER, 'P'), name='vf-app-connect')
             elif which == 'connect-back-hang':
                 dave = await add_peer('dave')
                 st['hang'] |= {dave.port, dave.obf_port}
@@ -905,6 +950,10 @@ def run_case(params: dict) -> dict:
                 by_kind['peer-connect-attempt'] = [t for t in by_kind['peer-connect-attempt'] if t not in children]
                 if not by_kind['peer-connect-attempt']:
                     del by_kind['peer-connect-attempt']
+            if open_now and 'reader' in by_kind and len(by_kind['reader']) <= len(open_now):
+                # the reader task of a connection that is still open is part of that finding
+                viol[-1 if not lst else -2][1]['reader_tasks_of_the_open_connections'] = [
+                    describe(t) for t in by_kind.pop('reader')][:6]
             gone = sorted({d['name'].rstrip('0123456789') + ':' + d['coroutine'] for d in at_return
                            if d['name'] not in {t.get_name() for t in survivors}})
             for g in gone:
@@ -912,7 +961,12 @@ def run_case(params: dict) -> dict:
             note('stop', **wit, pending=sorted(by_kind), at_return=[d['name'] for d in at_return][:8])
 
             window = 700.0 if st['spent_hour'] else HOUR
-            await asyncio.sleep(window)
+            # SimNet ground truth again some seconds later: every connect that was pending at stop() (latency <= 5 s)
+            # has completed by then
+            await asyncio.sleep(8.0)
+            await settle(0)
+            open_8s = [tr for tr in w.net.open_transports(owner=ME) if tr not in open_now]
+            await asyncio.sleep(window - 8.0)
             await settle(0)
             for kd, tasks in sorted(by_kind.items()):
                 fates = []
@@ -934,8 +988,18 @@ def run_case(params: dict) -> dict:
             wrote = [(round(t - 1000.0, 4), len(d)) for c in server_conns() for t, dr, d in c.wlog
                      if dr == 'a2b' and t - 1000.0 > t_stop]
             open_later = [tr for tr in w.net.open_transports(owner=ME) if tr not in open_now]
-            est = [c for c in w.net.conns if c.src == ME and c.opened - 1000.0 > t_stop and
-                   not any(e.get('conn') == c.id for e in att)]
+            open_later += [tr for tr in open_8s if tr not in open_later]
+
+            def instantly_dropped(c) -> bool:
+                # the TCP connect of an attempt begun before stop() completes and the client closes it within the same
+                # instant without having written a byte: accepted ('no connection is open')
+                return (c.a.closed_at is not None and c.a.closed_at - c.opened <= 1e-9
+                        and not c.stream('a2b', delivered=False))
+            est_all = [c for c in w.net.conns if c.src == ME and c.opened - 1000.0 > t_stop and
+                       not any(e.get('conn') == c.id for e in att)]
+            est = [c for c in est_all if not instantly_dropped(c)]
+            if len(est_all) > len(est):
+                add('connects_completed_after_stop_and_dropped_at_once', len(est_all) - len(est))
             st['reconnected_after_stop'] = bool(server_att)
             if server_att:
                 # one finding: the client connects to the server again; a new login, its frames, the tasks of the new
@@ -969,6 +1033,8 @@ def run_case(params: dict) -> dict:
                                         'connection_attempt_began_at': next(
                                             (e['t'] for e in w.net.connect_log if e.get('conn') == c.id), None),
                                         'bytes_the_client_wrote_on_it': len(c.stream('a2b', delivered=False)),
+                                        'open_8_s_after_stop': any(tr.conn is c for tr in open_8s),
+                                        'closed_at': None if c.a.closed_at is None else round(c.a.closed_at - 1000.0, 4),
                                         'still_open_at_the_end': not c.a._lost} for c in est][:6],
                           surviving_tasks=sorted(by_kind))
             if w.net.listeners_of(ME) and not lst:
@@ -986,6 +1052,15 @@ def run_case(params: dict) -> dict:
                     violation(f'loss:session-destroyed-count:{n_d - n_i:+d}:whole-run', **wit,
                               session_initialized_events=n_i, session_destroyed_events=n_d,
                               server_connection_closed_events=st['closed'][:8])
+
+        async def end_app_task():
+            t = st.get('app_task')
+            if t is None:
+                return
+            if not t.done():
+                t.cancel()
+            r = (await asyncio.gather(t, return_exceptions=True))[0]
+            cover.append(('app_connect_outcomes', type(r).__name__))
 
         # =====================================================================================================
         # scenario
@@ -1059,6 +1134,7 @@ def run_case(params: dict) -> dict:
                     inject('eof')
                     await settle(2.0)
             await stop_and_judge(label)
+            await end_app_task()
             ltask = st.get('ltask')
             if ltask is not None:
                 if not ltask.done():
@@ -1129,6 +1205,7 @@ def run_case(params: dict) -> dict:
                 server.stop_listening()
             await judge_loss(t_inj, reason, 0, n_destr0, label, down=point == 'idle-down')
         await stop_and_judge('final:' + label)
+        await end_app_task()
 
     tag = f"{params.get('seed', 0)}:{params.get('idx', 0)}"
     holder: dict = {}
